@@ -1,6 +1,8 @@
 (* C13 — the random byte stream is Salsa20/20 keystream under a per-request nonce.  Statements only (Salsa.v, Small.v, Prng.v). *)
 From Coq Require Import ZArith List Arith.
 From NTT Require Import Small Salsa Prng SalsaLoop.
+From NTT Require FrbSrc OsSem.
+From NTT.gen Require GenOs.
 Import ListNotations.
 Local Open Scope Z_scope.
 
@@ -42,3 +44,24 @@ Proof. exact qr_vec2. Qed.
 Theorem C13_asm_loop_structure : forall key nonce len, asm_stream key nonce len = stream key nonce len.
 Proof. exact asm_stream_is_stream. Qed.
 Print Assumptions C13_asm_loop_structure.
+
+(* nfl::fastrandombytes OF THE SOURCE (lib/prng/fastrandombytes.cpp), translated by tools/cxxos2coq.py on every run into gen/GenOs.v (module Frb):
+   the statics key / nonce_counter, the function-local static `seeded` with its one-time initialiser seed_key() (which fills the key from the
+   key source: an oracle here, C19), `nonce_counter.fetch_add(1)`, the shift loop writing the eight nonce bytes, the keystream routine (an
+   oracle: `stream key nonce len` written at r) -- the sequential meaning of one request; atomicity under threads is C18.  One request of the
+   translated code is one step `frb` of the state machine the history theorems above are about: it seeds exactly when the model does, the
+   nonce bytes are the little-endian encoding of the counter value taken (the model's nonce), the counter advances by one modulo 2^64, and
+   the caller's memory changes only in r[0 .. len), which receives the model's output. *)
+Theorem C13_source_fastrandombytes : forall (s : GenOs.Frb.st) (gs : gst) fuel len, length (GenOs.Frb.a_key s) = 32%nat -> length (GenOs.Frb.a_nonce s) = 8%nat ->
+  0 <= GenOs.Frb.v_nonce_counter s < 2 ^ 64 -> GenOs.Frb.v_rlen s = Z.of_nat len -> 0 <= GenOs.Frb.o_r s -> GenOs.Frb.o_r s + Z.of_nat len <= Z.of_nat (length (GenOs.Frb.b_r s)) -> (8 < fuel)%nat ->
+  (GenOs.Frb.g_seeded s = 0 -> (32 <= length (GenOs.Frb.w_keytape s))%nat) ->
+  g_init gs = negb (GenOs.Frb.g_seeded s =? 0) -> (g_init gs = true -> g_key gs = GenOs.Frb.a_key s) -> g_nonce gs = le_encode 8 (GenOs.Frb.v_nonce_counter s) ->
+  let oskey := firstn 32 (GenOs.Frb.w_keytape s) in
+  exists s', GenOs.Frb.gen_fastrandombytes stream fuel s = Some (OsSem.Norm s') /\
+    GenOs.Frb.b_r s' = write_mem (GenOs.Frb.b_r s) (Z.to_nat (GenOs.Frb.o_r s)) (snd (frb oskey gs len)) /\
+    g_init (fst (frb oskey gs len)) = negb (GenOs.Frb.g_seeded s' =? 0) /\ g_key (fst (frb oskey gs len)) = GenOs.Frb.a_key s' /\
+    g_nonce (fst (frb oskey gs len)) = le_encode 8 (GenOs.Frb.v_nonce_counter s') /\
+    GenOs.Frb.v_nonce_counter s' = (GenOs.Frb.v_nonce_counter s + 1) mod 2 ^ 64 /\ GenOs.Frb.a_nonce s' = le_encode 8 (GenOs.Frb.v_nonce_counter s) /\
+    GenOs.Frb.w_keytape s' = (if GenOs.Frb.g_seeded s =? 0 then skipn 32 (GenOs.Frb.w_keytape s) else GenOs.Frb.w_keytape s) /\ length (GenOs.Frb.a_key s') = 32%nat /\ GenOs.Frb.o_r s' = GenOs.Frb.o_r s.
+Proof. exact FrbSrc.source_fastrandombytes. Qed.
+Print Assumptions C13_source_fastrandombytes.
